@@ -124,17 +124,25 @@ func runListX(dir, focus string, env *execEnv, caseStr string) (*Sx, []Violation
 			c := x.PotentialConnectivity()
 			m := c.ProtocolsAndPortsMap()
 			full := len(m) == 3
-			for _, ranges := range m {
+			for proto, ranges := range m {
 				if len(ranges) != 1 || ranges[0].Start() != 1 || ranges[0].End() != 65535 {
 					full = false
 				}
+				prevEnd := int64(-10)
+				for _, rg := range ranges {
+					if rg.Start() < 1 || rg.End() > 65535 || rg.Start() > rg.End() || rg.Start() <= prevEnd+1 {
+						viols = append(viols, Violation{Prop: "C05", Kind: "exposure-entry-ranges-not-canonical", Detail: fmt.Sprintf("exposure entry of %s: %s %d-%d after end %d", ep.ExposedPeer().String(), proto, rg.Start(), rg.End(), prevEnd), Case: caseStr})
+					}
+					prevEnd = rg.End()
+				}
 			}
 			if cs, ok := c.(*common.ConnectionSet); ok && full && len(cs.GetNamedPorts()) == 0 && fmt.Sprint(c) != "All Connections" {
-				viols = append(viols, Violation{Prop: "C11", Kind: "full-set-not-recognised-in-output", Detail: fmt.Sprintf("exposure entry of %s holds every port of every protocol and no port name, and is written %q", ep.ExposedPeer().String(), fmt.Sprint(c)), Case: caseStr})
+				d := fmt.Sprintf("exposure entry of %s holds every port of every protocol and no port name, and is written %q", ep.ExposedPeer().String(), fmt.Sprint(c))
+				viols = append(viols, Violation{Prop: "C11", Kind: "full-set-not-recognised-in-output", Detail: d, Case: caseStr},
+					Violation{Prop: "C05", Kind: "all-spelled-as-three-ranges-in-exposure-entry", Detail: d, Case: caseStr})
 			}
 		}
 	}
-	viols = append(viols, checkWellFormed(conns, peers, caseStr)...)
 	// C06: the base connectivity is the one reported without the flag
 	if focus == "" {
 		base, _ := runListRel(dir, "", env, caseStr)
@@ -296,8 +304,8 @@ func checkExposureAgainstHypotheticalPods(w *World, ca *connlist.ConnlistAnalyze
 				nsLabels[o.Pod.NS] = nil
 			}
 		case "np":
-			if _, ok := nsLabels[o.Np.NS]; !ok {
-				nsLabels[o.Np.NS] = nil
+			if _, ok := nsLabels[o.Np.EffNS()]; !ok {
+				nsLabels[o.Np.EffNS()] = nil
 			}
 		}
 	}
@@ -382,7 +390,7 @@ func checkExposureAgainstHypotheticalPods(w *World, ca *connlist.ConnlistAnalyze
 						}
 						nsSel := p.NsSel
 						if nsSel == nil {
-							nsSel = &Sel{ML: []KV{{"kubernetes.io/metadata.name", o.Np.NS}}}
+							nsSel = &Sel{ML: []KV{{"kubernetes.io/metadata.name", o.Np.EffNS()}}}
 						}
 						if len(nsSel.ME) > 0 || len(nsSel.ML) == 0 {
 							continue
